@@ -289,3 +289,64 @@ Fixpoint bs_run (ws : list (list Z)) (b : bstream) (o : os) : res bstream * os :
 
 Definition no_err (s : list outcome) : bool :=
   forallb (fun oc => match oc with Err _ => false | _ => true end) s.
+
+(* ---- ThreadedBufferedStream<Writer> (util/threaded_buffered_stream.hh), data path only.
+   The producer copies into fixed blocks of kBlockSize bytes and hands every full block to the
+   writer thread (SpillBuffer -> lease_.SuccessNext()), which calls writer_.write(block) for the
+   blocks in the order they were handed over (that hand-off is in order and loses nothing is
+   property C16; here the hand-off is a list).  tbs_buf = [lease_.Base(), current_). ---- *)
+
+(* ThreadedBufferedStream &write(const void *data, std::size_t length):
+     while (current_ + length > end_) { memcpy(current_, data, end_ - current_); data += ..; length -= ..;
+                                        current_ = end_; SpillBuffer(); }
+     memcpy(current_, data, length); current_ += length;
+   returns the blocks handed over, in order, and the new partial block *)
+Fixpoint tbs_write (fuel : nat) (data buf : list Z) (bsize : nat) : res (list (list Z) * list Z) :=
+  match fuel with
+  | O => Fail EFuel
+  | S f =>
+    if (length buf + length data <=? bsize)%nat then Ok ([], buf ++ data)
+    else
+      let room := (bsize - length buf)%nat in
+      let full := buf ++ firstn room data in
+      match full with
+      | [] => Fail EFuel        (* SpillBuffer returns at once when current_ == Base(): only if kBlockSize = 0; the loop would spin *)
+      | _ =>
+        match tbs_write f (skipn room data) [] bsize with
+        | Ok (blocks, buf') => Ok (full :: blocks, buf')
+        | Fail e => Fail e
+        end
+      end
+  end.
+
+(* all writes, then the destructor: SpillBuffer(); poison; join *)
+Fixpoint tbs_blocks (ws : list (list Z)) (buf : list Z) (bsize : nat) : res (list (list Z)) :=
+  match ws with
+  | [] => Ok (match buf with [] => [] | _ => [buf] end)
+  | w :: r =>
+    match tbs_write (length w + 2) w buf bsize with
+    | Fail e => Fail e
+    | Ok (blocks, buf') =>
+      match tbs_blocks r buf' bsize with
+      | Ok more => Ok (blocks ++ more)
+      | Fail e => Fail e
+      end
+    end
+  end.
+
+(* the writer thread: writer_.write(block) for every block, in order (FileWriter = WriteOrThrow) *)
+Fixpoint write_blocks (blocks : list (list Z)) (o : os) : res unit * os :=
+  match blocks with
+  | [] => (Ok tt, o)
+  | b :: r =>
+    match write_or_throw b o with
+    | (Ok _, o') => write_blocks r o'
+    | (Fail e, o') => (Fail e, o')
+    end
+  end.
+
+Definition tbs_run (ws : list (list Z)) (bsize : nat) (o : os) : res unit * os :=
+  match tbs_blocks ws [] bsize with
+  | Fail e => (Fail e, o)
+  | Ok blocks => write_blocks blocks o
+  end.
